@@ -295,6 +295,17 @@ func expandProgressive(file []byte) (*expFile, error) {
 				}
 			}
 		}
+		// 8.7.4: first_chunk starts at 1 and increases from entry to entry, no chunk is empty
+		for i, e := range stsc {
+			if (i == 0 && e[0] != 1) || (i > 0 && e[0] <= stsc[i-1][0]) || e[1] == 0 {
+				return nil, fmt.Errorf("stsc is not well formed: entry %d has first_chunk %d, samples_per_chunk %d (previous first_chunk %d)", i+1, e[0], e[1], func() int {
+					if i > 0 {
+						return stsc[i-1][0]
+					}
+					return 0
+				}())
+			}
+		}
 		n := len(sizes)
 		if len(durs) != n || (len(ctos) != 0 && len(ctos) != n) {
 			return nil, fmt.Errorf("table lengths disagree: stts %d ctts %d stsz %d", len(durs), len(ctos), n)
